@@ -30,6 +30,7 @@ type Solver struct {
 	script  []string // declare/define/assert lines
 	checks  []checkRec
 	emitted map[int]bool
+	ufDecl  map[string]bool
 	dead    bool
 }
 
@@ -45,6 +46,7 @@ var (
 	QueryTimeoutMs = 20000
 	KeepChecks    = false
 	SlowLog       = 0.0
+	CrossBudgetS  = 40
 	CurWhere      = ""
 	QueryKind     = ""
 	QStats        = map[string][2]float64{}
@@ -108,6 +110,17 @@ func (s *Solver) emit(t *Term) {
 		s.emit(a)
 	}
 	s.emitted[t.id] = true
+	if t.op == "uf" && !s.ufDecl[t.name] {
+		if s.ufDecl == nil {
+			s.ufDecl = map[string]bool{}
+		}
+		s.ufDecl[t.name] = true
+		var as []string
+		for _, a := range t.args {
+			as = append(as, a.sort.String())
+		}
+		s.send(fmt.Sprintf("(declare-fun |%s| (%s) %s)", t.name, strings.Join(as, " "), t.sort))
+	}
 	switch t.op {
 	case "const":
 	case "var":
@@ -418,7 +431,15 @@ func (s *Solver) CrossCheck(other string, max int) (compared int, disagreements 
 	if max > 0 && len(s.checks) > max {
 		step = (len(s.checks) + max - 1) / max
 	}
+	deadline := time.Now().Add(time.Duration(CrossBudgetS) * time.Second)
+	go func() { // the secondary solver may sit in one hard query: bound the whole cross-check
+		time.Sleep(time.Until(deadline) + 2*time.Second)
+		c.Process.Kill()
+	}()
 	for qi, ch := range s.checks {
+		if time.Now().After(deadline) {
+			break
+		}
 		for ; pos < ch.scriptLen; pos++ {
 			fmt.Fprintln(w, s.script[pos])
 		}
@@ -431,6 +452,9 @@ func (s *Solver) CrossCheck(other string, max int) (compared int, disagreements 
 		for {
 			l, err := out.ReadString('\n')
 			if err != nil {
+				if time.Now().After(deadline) {
+					return compared, disagreements // budget used up
+				}
 				return compared, append(disagreements, "secondary solver died")
 			}
 			l = strings.TrimSpace(l)
